@@ -190,6 +190,9 @@ def st_case(draw):
         case["tscale_factor"] = draw(st.sampled_from([0.5, 1.0, 1.0, 2.0]))
         return case
     case.update(draw(st_trace_plan(cf, Tn, keep_start_inside=(mode == "history"))))
+    if mode == "direct" and draw(st.integers(0, 2)) == 0:
+        nb, na = draw(st.sampled_from([(0, 3), (4, 0), (2, 5), (0, 1), (1, 0)]))
+        case["extend"] = {"which": draw(st.sampled_from(["high", "low"])), "nbelow": nb, "nabove": na}
     if mode == "history":
         # the SAME Thermodynamics object is traced a second time (other ranges / dT / rTol), optionally after
         # a parameter of the potential was changed in place; derivatives are requested in between
@@ -341,6 +344,25 @@ def build(case, v):
     except (AssertionError, RuntimeError) as exc:
         v.label("outcome:trace:" + type(exc).__name__)
         return None
+    ext = case.get("extend")
+    if ext:
+        # the user widens a traced table (public extendInterpolationTable) on one side or on both, staying where the
+        # phase exists; the tabulated range used by the thermodynamics (min/maxPossibleTemperature) is unchanged,
+        # and inside it everything must still hold.  (Defect found in round 4 on the unmodified tree: a one-sided
+        # extension called the free energy with an empty array, which returned one row, and every value was shifted
+        # against its abscissa - p off by up to 40 %.)
+        which = ext["which"]
+        fe = th.freeEnergyHigh if which == "high" else th.freeEnergyLow
+        lo, hi = fe.interpolationRangeMin(), fe.interpolationRangeMax()
+        nb, na = int(ext["nbelow"]), int(ext["nabove"])
+        nlo, nhi = lo - nb * case["dT"], hi + na * case["dT"]
+        okb = nb == 0 or (not fe.minPossibleTemperature[1] and nlo > 0 and cf.exists(which, nlo - 3 * case["dT"]))
+        oka = na == 0 or (not fe.maxPossibleTemperature[1] and cf.exists(which, nhi + 3 * case["dT"]))
+        if okb and oka:
+            fe.extendInterpolationTable(nlo, nhi, nb, na)
+            v.label(f"table-extended:{'both' if nb and na else 'below' if nb else 'above'}")
+        else:
+            v.label("table-extended:skipped-near-end-of-phase")
     err = None
     try:
         th.setExtrapolate()
